@@ -402,19 +402,27 @@ def parts(tier, seed):
     M_ik = Mh[1]
     AdMinv = se3.adj(se3.tinv(M_ik))
 
+    # goal kinds: 0 = FK of an in-palette joint vector (reachable); 1 = the same pose displaced by a twist whose rotation part
+    # (5e-3) and translation part (5e-4) lie *between* the tolerance levels 1e-6 < . < 1e-2 / 1e-3, so that for chains that cannot
+    # absorb it exactly one of the two error norms decides the success flag
+    D_GOAL = se3.exp6(np.concatenate([5e-3 * unit((0.4, -0.5, 0.77)), 5e-4 * unit((-0.6, 0.3, 0.74))]))
+
     def mk_ik(n, win):
         def g(mi):
             if win:
                 idx = window(n, mi[0])
                 thg = goals4(n)[mi[1]]
-                st, tl = mi[2], mi[3]
+                gk, st, tl = mi[2], mi[3], mi[4]
             else:
                 idx = mi[:n]
                 thg = np.array([TH2[k] for k in mi[n:2 * n]])
-                st, tl = mi[2 * n], mi[2 * n + 1]
+                gk, st, tl = mi[2 * n], mi[2 * n + 1], mi[2 * n + 2]
             S = slist(P, idx)
             B = np.ascontiguousarray(AdMinv @ S)
-            Tg = np.ascontiguousarray(poe.poe(S, thg) @ M_ik)
+            Tg = poe.poe(S, thg) @ M_ik
+            if gk:
+                Tg = Tg @ D_GOAL
+            Tg = np.ascontiguousarray(Tg)
             th0 = thg.copy()
             if st > 0:
                 j, o = divmod(st - 1, 3)
@@ -423,11 +431,11 @@ def parts(tier, seed):
             return [("IKinSpace", (S, M_ik.copy(), Tg, th0, eo, ev), {"kind": "ik"}),
                     ("IKinBody", (B, M_ik.copy(), Tg.copy(), th0.copy(), eo, ev), {"kind": "ik"})]
         return g
-    out.append(Part("ik1", [nJ, 2, 4, 3], mk_ik(1, False), weight=1.5))
-    out.append(Part("ik2", [nJ, nJ, 2, 2, 7, 3], mk_ik(2, False), weight=3.0))
-    out.append(Part("ik3", [nJ] * 3 + [2] * 3 + [10, 3], mk_ik(3, False), thin_quick=29, thin_thorough=2, weight=2.8))
+    out.append(Part("ik1", [nJ, 2, 2, 4, 3], mk_ik(1, False), weight=1.5))
+    out.append(Part("ik2", [nJ, nJ, 2, 2, 2, 7, 3], mk_ik(2, False), weight=3.0))
+    out.append(Part("ik3", [nJ] * 3 + [2] * 3 + [2, 10, 3], mk_ik(3, False), thin_quick=59, thin_thorough=5, weight=2.8))
     for n in (4, 5, 6, 7):
-        out.append(Part("ikw%d" % n, [8, 4, 1 + 3 * n, 3], mk_ik(n, True), thin_quick=5, weight=2.0 * n))
+        out.append(Part("ikw%d" % n, [8, 4, 2, 1 + 3 * n, 3], mk_ik(n, True), thin_quick=11, weight=2.0 * n))
 
     # ---- dynamics -----------------------------------------------------------------------------------------------
     def chain_of(n, win, mi):
@@ -733,6 +741,19 @@ class Eval:
         try:
             return True, f(*fresh(args))
         except Exception as e:          # a library call that raises is an observation, not a harness crash
+            if lib is self.ref or not isinstance(e, OSError):
+                return False, e
+        finally:
+            if fname == "SimulateControl":
+                self.plt.close("all")
+        # An OSError out of a numeric kernel comes from Numba's on-disk cache (its directory is pruned by concurrent runs of
+        # other trees, mc/env.py keeps the 6 newest): environment, not library.  One more attempt decides; a library defect
+        # raises again and is reported, a transient one is counted.
+        try:
+            out = f(*fresh(args))
+            self.acc.outcome("transient_oserror_in_port_retried")
+            return True, out
+        except Exception as e:
             return False, e
         finally:
             if fname == "SimulateControl":
